@@ -12,7 +12,7 @@ BASE_STRUCT = ("struct", "B0", (("b", 0, U(8), None, None),))
 BASE_ENUM = ("enum", "E0", (("e0", 0), ("e1", 1)))
 
 IDENTS = ("u8x", "i2c_msg", "f32x", "strx", "Optionalx", "structure", "mod_", "A", "a_b1", "implx", "enum_", "u", "i", "f", "_x", "as_", "version1", "signalx", "methodx", "returnsx", "u123", "f321")
-VALUE_FORMS = (0, 7, -3, 1.5, -2.5e-3, 1e10, "", "txt", "a b", "x//y", "p/*q*/r", ("id", "ident1"), ("id", "u8"), [1], [1, 2], [("id", "a"), "s", -1.5], [[1, 2], [3]], [[1], [2, [3]]])
+VALUE_FORMS = (0, 7, -3, 18446744073709551615, 9007199254740993, -9223372036854775807, 2.0, 1.5, -2.5e-3, 1e10, "", "txt", "a b", "x//y", "p/*q*/r", ("id", "ident1"), ("id", "u8"), [1], [1, 2], [("id", "a"), "s", -1.5], [[1, 2], [3]], [[1], [2, [3]]])
 RANGE_FORMS = ((-1.5, 2000.0), (0.0, 1.0), (1e-3, 1e5), (-1e-7, -0.0), (0, 10), (-5, 5.5))
 UNITS = ("m/s", "", "deg C", "%", "a,b")
 
@@ -51,10 +51,12 @@ def descriptions(tier):
                     f1 = ("y", ids[1], F32, None, rng)
                     out.append(("params", [("struct", "S", (f0, f1))]))
     # 3. enums
-    for vals in ((0,), (5,), (-1,), (0, 1), (5, 0), (-1, 7), (0, 1, 2), (255, 256, 65536)):
+    for vals in ((0,), (5,), (-1,), (0, 1), (5, 0), (-1, 7), (0, 1, 2), (255, 256, 65536), (2147483647, -2147483648)):
         out.append(("enum", [("enum", "E", tuple(("v%d" % i, v) for i, v in enumerate(vals)))]))
+    # enumerator values beyond the i32 the reflection schema reserves for them: parse tree only (C07), not C12
+    out.append(("enum-beyond-i32", [("enum", "E", (("v0", 9007199254740993), ("v1", 18446744073709551615)))]))
     # 4. bindings: rename x extension fields (every value form) x signal blocks
-    forms = VALUE_FORMS if tier != "quick" else VALUE_FORMS[:3] + VALUE_FORMS[3:4] + VALUE_FORMS[6:10] + VALUE_FORMS[11:14] + VALUE_FORMS[15:16]
+    forms = VALUE_FORMS if tier != "quick" else VALUE_FORMS[:8] + VALUE_FORMS[10:14] + VALUE_FORMS[15:18] + VALUE_FORMS[19:20]
     for rename in (None, "Ren"):
         for nsig in (0, 1, 2):
             sigs = tuple(("b" if j == 0 else "c", (("endianess", "big"), ("k%d" % j, j))) for j in range(nsig))
